@@ -296,6 +296,7 @@ func runC02(e *Engine, r *Report) {
 	ruleRestoreRebase(e, r)
 	ruleTermInMemFirst(e, r)
 	ruleRaftPredicates(e, r, "upToDate", "matchTerm")
+	borrow(e, r, "C03", "GD-vote-grant", "GD-campaign", "GD-campaign-pred", "GD-leader", "GD-tally", "WMW-term", "WMW-vote-reset")
 }
 
 // runDET: no wall clock / randomness / unordered map iteration feeding state
